@@ -50,6 +50,13 @@ DENSITIES = {
     ),
 }
 
+# parameters that carry the unit of y (scale with the data); the others are unit-free
+UNIT_PARAMS = {
+    "poly0": ["c0"], "poly1": ["c0", "c1"], "poly2": ["c0", "c1", "c2"], "poly3": ["c0", "c1", "c2", "c3"], "poly4": ["c0", "c1", "c2", "c3", "c4"],
+    "trig": ["a", "b", "c"], "expbasis": ["a", "b"], "exponential": ["A"], "powerlaw": ["A"], "gausspeak": ["A", "c"], "lorentz": ["A", "c"],
+    "sinusoid": ["A", "c"], "logistic": ["L"],
+}
+
 _counter = [0]
 
 
